@@ -4,6 +4,7 @@
    any interleaving of the receive, worker, responder and send steps, any behaviour of the implementation. *)
 From Coq Require Import NArith List Bool PeanoNat.
 From V9 Require Shape.ShapeLib Shape.PBuf Shape.POrder.
+From V9 Require Race.Facts Shape.PLocks.
 From V9 Require Srv.Buf Srv.BufProofs.
 From V9 Require Import Lib.GoSem Gen.Consts Srv.Conc Srv.ConcProofs.
 Import ListNotations.
@@ -100,3 +101,10 @@ Print Assumptions C03_wire_bytes_belong_to_request_in_source.
 Theorem C03_source_respond_order : ShapeLib.respond_order = true.
 Proof. exact POrder.respond_order_ok. Qed.
 Print Assumptions C03_source_respond_order.
+
+(* ---- a modelling assumption about the CURRENT source (Gen/LockFacts.v), re-checked on every run ---- *)
+(* the steps the models treat as atomic are critical sections in the source: every access to a mutex-protected
+   field (request lists and tag groups, flush chains, request status, the client's pending list and error) holds its mutex *)
+Theorem C03_source_critical_sections : V9.Race.Facts.violations = [].
+Proof. exact V9.Shape.PLocks.sites_comply_ok. Qed.
+Print Assumptions C03_source_critical_sections.
